@@ -18,7 +18,7 @@ def col_literal(col):
     return '[' + '; '.join('None' if x != x else f'(Some ({int(x)}))' for x in col) + ']'
 
 
-def make_dataset(rng, fam):
+def make_dataset(rng, fam, crossing=False, layers=None):
     d = gen.any_dataset(rng, fam)
     ds = d.ds
     if rng.random() < 0.3:
@@ -28,7 +28,13 @@ def make_dataset(rng, fam):
                      'shoc_simple': ('zc', None, 'zcsed')}.get(d.family, (None, None, 'ksed_centre'))
     tname = gen.TIME_NAMES.get(d.family, 'time')
     two = rng.random() < 0.4 and d.family != 'shoc_simple'
-    if rng.random() < 0.25:
+    if layers:
+        # a tall water column: more layers than a byte can count
+        ds, sp1 = gen.add_depth(rng, ds, dim='k', name=nm1, second=False, n=layers)
+    elif crossing:
+        # an unlabelled axis of heights about a datum inside the column: most values on one side of zero, their mean on the other
+        ds, sp1 = gen.add_depth(rng, ds, dim='k', name=nm1, second=False, positive='none', crossing=True, n=rng.randint(3, 5))
+    elif rng.random() < 0.25:
         # depths stored as whole numbers in an unsigned type (positive down, as such a type requires)
         ds, sp1 = gen.add_depth(rng, ds, dim='k', name=nm1, second=False, int_dtype=rng.choice(['u2', 'u1']), up=False, positive='attr')
     else:
@@ -121,7 +127,8 @@ def run(ctx):
     plan_exprs, plan_plans = [], []
     for n in range(n_ds):
         fam = rng.choice(['cf1d', 'cf2d', 'shoc_simple', 'shoc_standard', 'ugrid'])
-        d, ds, specs, variables, tname = make_dataset(rng, fam)
+        d, ds, specs, variables, tname = make_dataset(rng, fam, crossing=(n % 5 == 3), layers=(300 if n == 6 else None))
+        ctx.count(f'axis crossing zero, unlabelled:{n % 5 == 3}')
         via_ems = rng.random() < 0.5
         # as read from a netCDF-4 file in which a horizontal dimension is unlimited too (tiles concatenated along it):
         # xarray records that in the dataset's encoding; it says nothing about the sea floor
